@@ -44,8 +44,11 @@ class MasterScheduler(BaseScheduler):
 
     async def setup(self) -> None:
         """Performs base setup and creates an awaitable flag to indicate new wakeups."""
-        await super().setup()
+        # messages published before the scheduler came up (e.g. interrupts) are
+        # replayed while subscribing, so everything their handlers use must exist
         self.new_wakeup: asyncio.Event = asyncio.Event()
+        self._mark_time(self._initial_time)
+        await super().setup()
 
     def add_wakeup(self, component: ComponentID, when: SimTime) -> None:
         """Adds a wakeup to the priority queue and sets an awaitable flag.
